@@ -64,8 +64,10 @@ def main(argv):
             for kt in ((0, 1, 2) if auth else (0,)):
                 ks = {"md5": 16, "sha1": 20}.get(auth, 16)
                 eng = (b"\x80\x00\x1f\x88" + gen.rbytes(rng, rng.choice([1, 8, 28]), False)).hex()
+                pkt = rng.choice([0, 1, 2])              # privacy key type independent of the auth key type
+                given = rng.random() < 0.5               # engine id given (constructor installs the keys) or discovered (set_keys does)
                 v3 = {"user": "u" * rng.choice([1, 8, 32]), "auth": [auth, kt, gen.rbytes(rng, ks if kt else 9, False).hex()] if auth else None,
-                      "priv": [priv, kt, gen.rbytes(rng, ks if kt else 9, False).hex()] if priv else None, "engine_id": eng, "agent_engine_id": eng,
+                      "priv": [priv, pkt, gen.rbytes(rng, ks if pkt else 9, False).hex()] if priv else None, "engine_id": eng if given else None, "agent_engine_id": eng,
                       "boots": rng.choice([0, 127, 128, 2 ** 31 - 1]), "time": rng.choice([0, 255, 65536, 2 ** 31 - 1])}
                 steps = [{"op": "enter", "default_reply": {"pdu_tag": 0xA8, "mac": "absent", "encrypt": "no", "flags": 0}}]
                 for noids in ([1, 2, 4, 6, 9, 12, 20, 60, 150] if thorough else [1, 4, 6, 9, 20, 150]):
@@ -88,7 +90,7 @@ def main(argv):
             v3 = sc["v3"]
             keys = scen.V3Keys(v3, bytes.fromhex(v3["agent_engine_id"]))
             for st, out in zip(sc["steps"], rec["steps"]):
-                for raw_hex, q in zip(out["emitted"], out["requests"]):
+                for xi, (raw_hex, q) in enumerate(zip(out["emitted"], out["requests"])):
                     raw = bytes.fromhex(raw_hex)
                     n += 1
                     sizes.add(len(raw))
@@ -97,7 +99,9 @@ def main(argv):
                     if "error" in q:
                         c.violation(label + ": not a well-formed message: " + q["error"], {"datagram": raw_hex}, key="malformed")
                         continue
-                    if v3["auth"] is None:
+                    # engine-id discovery: until the engine id is known the session holds no key (default user)
+                    keyless = v3["auth"] is None or (not v3["engine_id"] and st["op"] == "enter" and xi == 0 and q.get("engine_id") == "")
+                    if keyless:
                         if q["auth"] != "" or q["flags"] & 1:
                             c.violation(label + ": session without a key sent auth parameters %s / flags %d" % (q["auth"], q["flags"]),
                                         {"datagram": raw_hex, "scenario": dict(sc, steps=[st])}, key="noauth-field")
